@@ -235,7 +235,7 @@ pub fn subchecks(tier: Tier) -> Vec<SubCheck> {
         generated(
             "laws_near",
             "pairs of normalised hashes, block sizes mostly equal / double / half with the comparable block hashes derived from one another (edits, copies, unrelated), short and long; range, symmetry, self = 100, far = 0, score>0 <=> equal or candidate, candidate = first-principles definition = index-window intersection, window encodings from first principles; non-trivial = near relation and >= 7 symbols in a compared pair; distinct by the two texts",
-            tier.pick(300_000, 4_000_000),
+            tier.pick(1_200_000, 12_000_000),
             strategy,
             eval,
         ),
